@@ -30,7 +30,7 @@ type Report struct {
 
 var baseAssumptions = []string{
 	"x/tools go/packages, go/types, go/ssa v0.29.0 lower the source to SSA faithfully and the gc compiler implements the same semantics",
-	"this engine's VC generator and SMT printer (guarded by vacuity canaries on every run and the must-fail corpus under /verif/seeded and /verif/selftest)",
+	"this engine's VC generator and SMT printer (guarded by vacuity canaries on every run, the obligation baselines, and the must-fail corpus under /verif/seeded (tools/selftest.sh))",
 	"solver soundness: an unsat from any one of z3 5.1.0, cvc5 1.0.3, z3 4.8.12 is accepted; sat-vs-unsat disagreement is an engine error",
 	"Go type and memory safety: no package unsafe in the verified code, no data races on the verified state, int is 64 bits, slices hold at most 2^48 elements, no out-of-memory, no stack overflow",
 	"machine integers are modelled exactly (mathematical Int terms with explicit wrap-around at the type's width); nothing is treated as unbounded",
